@@ -56,6 +56,9 @@ def items(tier: str, seed: int) -> list[dict]:
         base.update(kw)
         out.extend(ee.sharded(base, 4 if base["workers"] > 1 else 1))
 
+    # the smallest runs under TWO pre-emptions (one worker, one operation)
+    add(doc="one_b", workers=1, max_examples=2, p=2, e=0, total=2)
+    add(doc="one_a", workers=1, max_examples=1, behaviour="all500", max_failures=1, p=2, e=0, total=2)
     for n in b["max_examples"]:
         add(max_examples=n, e=0)
         add(max_examples=n, workers=1, behaviour="fail:/b", e=0)
